@@ -1067,7 +1067,18 @@ func c19R4(c *eng.Ctx, local c19Local, performers c19Performers, inSet c19InSet,
 		}
 		why := "must be control-dependent on the flush having returned nil: in periodic mode conditions saved since the last sync exist only in memory, and the caller (stopLimitStoreWithRetry) retries Stop only while it reports an error"
 		nClose, nStopped, nLocal := 0, 0, 0
-		eng.Instrs(stop, func(x ssa.Instruction) {
+		// the shutdown steps may sit in Stop itself or in helpers its body was spread over; the guard
+		// queries lift to the helper's call sites in Stop
+		var stopInstrs []ssa.Instruction
+		for _, g := range c.W.Region(stop) {
+			eng.Instrs(g, func(x ssa.Instruction) { stopInstrs = append(stopInstrs, x) })
+		}
+		forEach := func(f func(x ssa.Instruction)) {
+			for _, x := range stopInstrs {
+				f(x)
+			}
+		}
+		forEach(func(x ssa.Instruction) {
 			switch u := x.(type) {
 			case *ssa.Call:
 				if c13IsBuiltin(u, "close") && len(u.Call.Args) == 1 && eng.FieldLoadOf(u.Call.Args[0], c13TObjectStore, "stopCh") {
